@@ -226,6 +226,10 @@ m("C19-i", "C19", "libwallet/src/internal/updater.rs", "\t\t\t\t\tSome(t) => tx_
 m("C09-f", "C09", "libwallet/src/slatepack/types.rs", "\t\twhile bytes_to_payload > 0 {\n\t\t\tlet _ = reader.read_u8()?;", "\t\twhile bytes_to_payload > 0 {\n\t\t\tlet _ = reader.read_u8();", "C09.R2")
 m("C13-g", "C13", "api/src/owner_rpc.rs", "\t\tlet sec_key = SecretKey::new(&secp, &mut thread_rng());\n\n\t\tlet mut shared_pubkey = ecdh_pubkey.ecdh_pubkey;", "\t\tlet sec_key = SecretKey::from_slice(&secp, &[7u8; 32]).map_err(Error::Secp)?;\n\n\t\tlet mut shared_pubkey = ecdh_pubkey.ecdh_pubkey;", "C13.R4")
 
+m("C01-h", "C01", "libwallet/src/internal/selection.rs", "\t\tlet remainder_change = change % num_change_outputs as u64;", "\t\tlet remainder_change = change % part_change;", "C01.R7")
+
+m("C01-i", "C01", "libwallet/src/api_impl/foreign.rs", "\t\tlet parent_key_id = context.parent_key_id.clone();", "\t\tlet parent_key_id = w.parent_key_id();", "C01.R8")
+
 
 def for_property(prop):
     return [x for x in M if x["property"] == prop]
